@@ -363,6 +363,14 @@ fn trees_mode(rng: &mut Rng, n: usize, thorough: bool) {
     }
     root += 1;
   }
+  // ---- information only: adaptors that call ExactSizeIterator::len() on a partially consumed iterator (std's Zip::next_back,
+  //      reached through rayon's enumerate().rev()): Iterator1D::len()/Iterator2D::len() keep reporting the length at creation
+  {
+    let r1 = guarded(|| rayon::ThreadPoolBuilder::new().num_threads(1).build().unwrap().install(|| Steps(0., 4., 5).into_par_iter().enumerate().rev().collect::<Vec<(usize, f64)>>()));
+    let r2 = guarded(|| rayon::ThreadPoolBuilder::new().num_threads(1).build().unwrap().install(|| Steps2D((0., 1., 2), (0., 1., 2)).into_par_iter().enumerate().rev().collect::<Vec<(usize, (f64, f64))>>()));
+    emit(json!({"kind": "enum_rev", "one_d": r1.as_ref().ok().map(|v| v.iter().map(|p| json!([p.0, p.1])).collect::<Vec<_>>()), "one_d_panic": r1.err(),
+      "two_d": r2.as_ref().ok().map(|v| v.iter().map(|p| json!([p.0, p.1 .0, p.1 .1])).collect::<Vec<_>>()), "two_d_panic": r2.err()}));
+  }
   // ---- information only: split_at(0) on the 1-D producer evaluates `index - 1` on usize
   let r = drive1d(0., 1., 4, &Tree::Node(0, Box::new(Tree::Leaf), Box::new(Tree::Leaf)), false);
   emit(json!({"kind": "split0_1d", "debug_assertions": cfg!(debug_assertions), "panic": r.as_ref().err().cloned(),
@@ -471,8 +479,8 @@ fn pools_mode(rng: &mut Rng, n: usize, thorough: bool) {
     }
   }
   // spectra, counts, HOM
-  for case in 0..n.min(2) {
-    let res = 6 + 2 * rng.below(3) + if thorough { 4 } else { 0 };
+  for case in 0..n.min(if thorough { 4 } else { 2 }) {
+    let res = 6 + 2 * rng.below(3) + if thorough { 6 } else { 0 };
     let seq_divs = 10 + 2 * rng.below(4);
     for &t in &threads {
       let r = on_pool(t, 300, "spectrum/counts/hom", move || {
